@@ -104,14 +104,40 @@ def cmd_run(sid, checks):
     json.dump(meta, open(f"{d}/meta.json", "w"), indent=1)
 
 def cmd_refresh(sid):
+    """rewrite patch.diff as the full diff against /repo HEAD (hand-written change + everything it makes
+    regenerate), in a private scratch worktree - /repo itself is never touched"""
     d = f"{V}/seeded/{sid}"
-    if not apply_core(sid):
-        return 1
-    r = sh(f"git -C {R} diff")
-    open(f"{d}/patch.diff", "w").write(r.stdout)
-    clean_repo()
-    chk = sh(f"git -C {R} apply --check {d}/patch.diff")
-    print("refreshed", sid, "files:", len(split_patch(r.stdout)), "apply-check:", chk.returncode)
+    wt = f"/tmp/seedrf-{sid}"
+    sh(f"git -C {R} worktree remove --force {wt}")
+    r = sh(f"git -C {R} worktree add --detach {wt} HEAD")
+    if r.returncode != 0:
+        print(r.stderr); return 1
+    env = dict(ENV, PV_REPO=wt)
+    meta = json.load(open(f"{d}/meta.json"))
+    try:
+        if meta.get("apply_full"):
+            r = sh(f"git -C {wt} apply --whitespace=nowarn {d}/patch.orig.diff")
+            if r.returncode != 0:
+                print(sid, "APPLY FAILED", r.stderr[:800]); return 1
+        else:
+            r = sh(f"git -C {wt} apply --whitespace=nowarn {d}/core.diff")
+            if r.returncode != 0:
+                r = sh(f"git -C {wt} apply --3way --whitespace=nowarn {d}/core.diff")
+                if r.returncode != 0:
+                    print(sid, "APPLY FAILED", r.stderr[:800]); return 1
+                sh(f"git -C {wt} reset -q")
+            rr = subprocess.run(f"cd {V} && ./bin/pv regen --write", shell=True, text=True, capture_output=True, env=env)
+            if not re.search(r" 0 errors", rr.stdout):
+                print(sid, "REGEN problems:", rr.stdout[-600:])
+        sh(f"git -C {wt} checkout -- go.sum")
+        diff = sh(f"git -C {wt} diff").stdout
+        open(f"{d}/patch.diff", "w").write(diff)
+        sh(f"git -C {wt} checkout -- . && git -C {wt} clean -fdq")
+        chk = sh(f"git -C {wt} apply --check {d}/patch.diff")
+        print("refreshed", sid, "files:", len(split_patch(diff)), "apply-check:", chk.returncode)
+    finally:
+        sh(f"git -C {R} worktree remove --force {wt}")
+        sh(f"rm -rf {wt}")
 
 def cmd_wt(sid, checks, verify=True):
     """run in a private scratch worktree (parallel-safe): verify suite+demo, then the checks"""
